@@ -178,6 +178,11 @@ def stateful (s : Store) (w : List String) : Option (Store × String) :=
     let k ← parseQ [n, t, c, cd, sc]; let now ← parseInt now; let prov ← prov.toNat?; let wit ← wit.toNat?
     let r := recordQuestion H s.cfg s.tab now k prov wit
     some ({ s with tab := r.1 }, fmtHit r.2)
+  | "race" :: n :: t :: c :: cd :: sc :: [now, _n] => do
+    -- n concurrent recorders at one instant: one CAS wins, the losers reload and see an active generation
+    let k ← parseQ [n, t, c, cd, sc]; let now ← parseInt now
+    let r := recordQuestion H s.cfg s.tab now k 3 0
+    some ({ s with tab := r.1 }, fmtHit r.2)
   | ["recz", z, c, now, prov] => do
     let k ← parseZ [z, c]; let now ← parseInt now; let prov ← prov.toNat?
     let r := recordZone H s.cfg s.tab now k prov 0
@@ -274,6 +279,24 @@ def stateful (s : Store) (w : List String) : Option (Store × String) :=
     let k ← parseQ [n, t, c, cd, sc]; let cls ← respClass cls; let now ← parseInt now
     let s' := s.setFromResponse H now k.name k.qtype k.qclass k.cd (normalizeScope k.scope).isSome cls
     some (s', lenLookup s' now { k with scope := none })
+  | ["serve", n, t, c, cd, opt, now, outcome] => do
+    let k ← parseQ [n, t, c, cd, "-"]; let opt ← parseBool opt; let now ← parseInt now
+    match s.lookupFailure H now k with
+    | some _ =>
+      let req : Req := ⟨true, k.cd, if opt then some ⟨1232, true, [10]⟩ else none⟩
+      some (s, "hit upstream=0 " ++ fmtResp (response (some req)))
+    | none =>
+      let (rc, cls, mark) ← (if outcome == "servfail" then some (2, RespClass.servfail, "none")
+        else if outcome == "refused" then some (5, RespClass.servfail, "none")
+        else if outcome == "nxdomain" then some (3, RespClass.useful, "none")
+        else if outcome == "useful" then some (0, RespClass.useful, "none")
+        else if outcome.startsWith "local:" then some (2, RespClass.servfail, (outcome.drop 6).toString)
+        else none)
+      let ctx ← parseCtx "-" mark
+      let s' := match cls with
+        | .servfail => s.writeBackFailure H now ctx k 0
+        | _ => (s.setFromResponse H now k.name k.qtype k.qclass k.cd false .useful).resetMatchingFailures H k
+      some (s', s!"miss upstream=1 rcode={rc} {lenLookup s' now k}")
   | "write" :: flags :: mark :: n :: t :: c :: cd :: sc :: [now, wit, cls] => do
     let ctx ← parseCtx flags mark
     let k ← parseQ [n, t, c, cd, sc]; let now ← parseInt now; let wit ← wit.toNat?; let cls ← respClass cls
